@@ -255,7 +255,12 @@ int main(int argc, char* const* argv)
                 taproot_inputs << PLACEHOLDER_SIGNATURE;
                 btc_logf("  #%zu: <placeholder signature>\n", witness_stack_count);
             } else {
-                auto v = Value(ca.l[sai]).data_value();
+                Item v;
+                try {
+                    v = Value(ca.l[sai]).data_value();
+                } catch (std::exception const& ex) {
+                    abort("invalid spend argument %s: %s", ca.l[sai], ex.what());
+                }
                 taproot_input_stack.push_back(v);
                 taproot_inputs << v;
                 btc_logf("  #%zu: %s\n", witness_stack_count, HEXC(v));
@@ -268,7 +273,12 @@ int main(int argc, char* const* argv)
     std::vector<CScript> scripts;
     btc_logf("%zu scripts:\n", script_count);
     for (size_t i = 0; i < script_count; ++i) {
-        Item scriptData = Value(ca.l[2 + i]).data_value();
+        Item scriptData;
+        try {
+            scriptData = Value(ca.l[2 + i]).data_value();
+        } catch (std::exception const& ex) {
+            abort("invalid script #%zu (%s): %s", i, ca.l[2 + i], ex.what());
+        }
         CScript script = CScript(scriptData.begin(), scriptData.end());
         if (!script.HasValidOps()) {
             abort("invalid script #%zu: %s", i, HEXC(scriptData));
